@@ -55,9 +55,9 @@ PROPS = {
             "claimed": True, "engine": "fmt",
             "level_text": ("`C04_fish` and `C04_bash_framing`: decoding the emitted text with the consumer's own parsing yields exactly one record per candidate with that candidate's own fields, for any text in any field (framing lemmas `splitOnChar_joinChar`, `cutChar_append` + the sets of characters each sanitizer strips, decided on the tables regenerated from /repo); no-line-break theorems for bash, elvish, nushell; zsh's three framing levels (`C04_zsh_outer_framing`, `C04_zsh_block_framing`, `C04_zsh_lines` with `C04_zsh_values_no_linebreak`; `C04_zsh_framing_counterexample` for the listed control-character finding); record counts for the JSON formats; decided counterexamples for the listed findings (bash-ble, cmd-clink). All 13 formats are additionally under exact output correspondence and the decode-and-compare oracle on the real output."),
             "level_note": FMT_NOTE},
-    "C05": {"modules": ["Carapace.Props.C05"], "ops": [("value", {"quick": 6000, "thorough": 300000})], "rule": FMT_RULE, "assumptions": FMT_ASSUME,
+    "C05": {"modules": ["Carapace.Props.C05"], "ops": [("value", {"quick": 6000, "thorough": 300000}), ("invoke", {"quick": 5000, "thorough": 200000})], "rule": FMT_RULE, "assumptions": FMT_ASSUME,
             "claimed": True, "engine": "fmt",
-            "level_text": ("`matches_iff` / `matches_eq_spec` (the matcher is exactly 'ends in a no-space character or the set is *'), `add_star`, `mem_add` (Add is set union with * absorbing), the effective set computed by the pipeline (`C05_export`, `C05_messages_force`, `C05_env_adds`), and per format that the expressed decision is a function of the (sanitised) value taken before quoting (elvish, bash-ble, nushell, powershell, ion, zsh incl. the FULL quoting states, bash single candidate and common-prefix step); xonsh decides on the quoted text: decided counterexample, partial theorem, listed finding. Exact output correspondence and the no-space oracle on the real output for all formats."),
+            "level_text": ("`matches_iff` / `matches_eq_spec` (the matcher is exactly 'ends in a no-space character or the set is *'), `add_star`, `mem_add` (Add is set union with * absorbing), the effective set computed by the pipeline (`C05_export`, `C05_messages_force`, `C05_env_adds`), and per format that the expressed decision is a function of the (sanitised) value taken before quoting (elvish, bash-ble, nushell, powershell, ion, zsh incl. the FULL quoting states, bash single candidate and common-prefix step); xonsh decides on the quoted text: decided counterexample, partial theorem, listed finding. Exact output correspondence and the no-space oracle on the real output for all formats; how the no-space set itself is built by the Actions (MultiParts dividers, ActionMultiPartsN separators, NoSpace, List, messages) is compared with the pure model on every generated expression (op invoke)."),
             "level_note": FMT_NOTE},
     "C06": {"modules": ["Carapace.Props.C06"], "ops": [("value", {"quick": 6000, "thorough": 300000}), ("invoke", {"quick": 5000, "thorough": 200000}), ("parse", {"quick": 3000, "thorough": 100000})], "rule": FMT_RULE, "assumptions": FMT_ASSUME,
             "claimed": True, "engine": "fmt",
